@@ -1,0 +1,7 @@
+//go:build verif
+
+package goat
+
+// VerifSetIdCounter fast-forwards the id allocator of the client connection
+// (see internal/client.VerifSetIdCounter; build tag "verif" only).
+func (cc *ClientConn) VerifSetIdCounter(v uint64) int { return cc.mp.VerifSetIdCounter(v) }
